@@ -69,6 +69,13 @@ RULES = {
         "freshly allocated (index arrays: Deep, Allocate; data arrays: Layout, Weak, Deep, Allocate) must not alias the source, for each "
         "(data type same/different) x (index type same/different) instantiation (same rule as C02.clone-cross-type, lib/lafem_rules). "
         "Broken -> a 'deep' clone across data types shares the source's index arrays: an in-place edit of one changes the other.", 18),
+    "C20.extent-agreement": (
+        "writer/reader agreement of recorded array extents: two constructors of one class that establish the same _scalar_index "
+        "(same base-class size argument, same pushed scalars) describe the same logical container, and every generic reader "
+        "(Container::clone/assign/format/_copy_content/serialize) derives element counts from _scalar_index and _elements_size only - so "
+        "they must record the same extent for array k of _elements/_indices, compared as polynomials in the scalar slots after inlining the "
+        "class's own accessors (size<pod>() = slot0 * BlockSize). Broken (one constructor records blocks instead of scalars) -> clones / "
+        "conversions of such an object get arrays that are too short for the element count all accessors use.", 10),
     "C20.pool-release": (
         "MemoryPool::release_memory looks the address up, frees and erases the entry exactly when the counter is 1 and "
         "decrements it by one otherwise.", 4),
@@ -586,6 +593,69 @@ def container_rules(ck, fam, prefix="C20."):
     return nfun
 
 
+def extent_agreement_rules(ck, fam, seen_fail):
+    groups = {}
+    for fn in fam.functions():
+        if not fn.d.get("ctor") or fn.body is None:
+            continue
+        it = L.Interp(fam, fn)
+        it.inline_accessors = True
+        base = None
+        for i in fn.d.get("inits") or []:
+            init = i.get("init") or {}
+            if i.get("base") and str(init.get("ccls", "")).startswith("FEAT::LAFEM::Container<") and init.get("pn") == ["size_in"] and init.get("a"):
+                base = L.poly(it, init["a"][0])
+        if base is None:
+            continue
+        scal, sizes = [], []
+        for n in fn.nodes():
+            if n.get("k") == "MCall" and n.get("n") == "push_back" and n.get("obj", {}).get("k") == "Member" and n.get("a"):
+                q = n["obj"].get("qn", "")
+                if L.obj_id(n["obj"].get("b")) != "this":
+                    continue
+                if L.SCAL_RE.search(q):
+                    scal.append(L.poly(it, n["a"][0]))
+                m = L.SIZE_RE.search(q)
+                if m:
+                    sizes.append((m.group(1), n))
+        if not sizes:
+            continue
+
+        def subst(p):
+            p = L.psubst(p, "slot0", base)
+            for k, sp in enumerate(scal):
+                p = L.psubst(p, "slot%d" % (k + 1), sp)
+            return p
+        sig = (fn.cls, L.pshow(subst(base)), tuple(L.pshow(subst(x)) for x in scal))
+        cnt = {}
+        for kind, n in sizes:
+            j = cnt.get(kind, 0)
+            cnt[kind] = j + 1
+            groups.setdefault((sig, kind, j), []).append((fn, n, subst(L.poly(it, n["a"][0]))))
+    for (sig, kind, j), members in sorted(groups.items(), key=lambda kv: str(kv[0])):
+        if len(members) < 2:
+            continue
+        forms = {}
+        for fn, n, p in members:
+            forms.setdefault(L.pshow(p), []).append((fn, n, p))
+        major = max(forms.values(), key=len)
+        for fn, n, p in members:
+            key = "%s/this._%s_size[%d]" % (L.fkey(fn), kind, j)
+            v = L.poly_verdict(p, major[0][2])
+            det = "constructors of %s establishing _scalar_index = (%s%s) record the extent of array %d of _%s as %s (%d of %d constructors); this one records %s" % (
+                L.short(fn.cls), sig[1], "".join(", " + x for x in sig[2]), j, kind, L.pshow(major[0][2]), len(major), len(members), L.pshow(p))
+            if v == "unknown" or (v == "ne" and len(major) * 2 <= len(members)):
+                ck.ob("C20.extent-agreement", key, True, "undecided: " + det, fn.file, n.get("l"), trivial=True)
+                continue
+            ok = v == "eq"
+            if not ok:
+                det += ": every reader sizes its work from _scalar_index, so objects built by the two constructors are indistinguishable to them, yet carry different recorded array lengths"
+                if ("ea", key) in seen_fail:
+                    continue
+                seen_fail.add(("ea", key))
+            ck.ob("C20.extent-agreement", key, ok, det, fn.file, n.get("l"), sample={"function": fn.full, "detail": det})
+
+
 DRIVER = "tu/c20_containers.cpp"
 ALT = ("-DC20_DT=float", "-DC20_IT=std::uint32_t", "-DC20_DT2=double", "-DC20_IT2=std::uint64_t")
 
@@ -623,6 +693,7 @@ def run(tier):
     ck.tu(runtime)
 
     nfun = 0
+    ea_seen = set()
     for fx in all_facts:
         fam = L.Family([fx])
         if not {"DenseVector", "SparseMatrixCSR"} <= fam.classes and fx is facts:
@@ -637,6 +708,7 @@ def run(tier):
         for msg in L.errors_in_family(fam, fx):
             ck.incomplete("C20.exit-state", msg)
         nfun += container_rules(ck, fam)
+        extent_agreement_rules(ck, fam, ea_seen)
         if fx is facts:
             L.cross_clone_rules(ck, fam, set(), rule="C20.clone-cross-type")
     pool_rules(ck, facts, runtime)
